@@ -37,7 +37,7 @@ ASSUMPTIONS = [
     "RFC 5054 fixes k=H(N|PAD(g)), u=H(PAD(A)|PAD(B)); the widths of A,B,S inside M1 and K=H(S) follow the HomeKit rule (fixed 384 bytes) - cannot be cross-checked against Apple's implementation offline",
     "no scheduling dimension: the simulator contributes entropy control and in-flight corruption only",
 ]
-TIERS = {"quick": {"runs": 2600, "wall": 55}, "thorough": {"runs": 150000, "wall": 1500}}
+TIERS = {"quick": {"runs": 1500, "wall": 55}, "thorough": {"runs": 150000, "wall": 1500}}
 
 _VEC = None
 
